@@ -78,6 +78,28 @@ theorem lists_available :
     (SQRTINV_QUAD_RULES.all fun k => sqrtinv_quadrature_rule.any fun e => decide (e.k1 = k.1) && decide (e.k2 = k.2)) = true :=
   ⟨available_LOG_QUAD_RULES, available_LOG_LOG_QUAD_RULES, available_SQRT_QUAD_RULES, available_SQRTINV_QUAD_RULES⟩
 
+/-- the scheme constructors of `src/quadrature.py` (`N = (N_poly + 1) // 2`, regenerated from the source): every
+table key `N` of the three Gauss families is the key computed for the odd degree `2N − 1`, and the table
+under that key is exact at least to the degree the constructor relies on (`keyOK`) -/
+theorem constructors_ok :
+    (gauss_sqrtinv_quadrature_rule.all fun e =>
+      (decide (e.k1 ≤ 0) || decide (ctorKey_gaussSqrtinv (2 * e.k1 - 1) = e.k1)) && keyOK .gaussSqrtinv e.k1 e.xs) = true ∧
+    (gauss_x_quadrature_rule.all fun e => keyOK .gaussX e.k1 e.xs) = true ∧
+    (gauss_log_quadrature_rule.all fun e => keyOK .gaussLog e.k1 e.xs) = true := by
+  refine ⟨constructors_ok_gaussSqrtinv, ?_, ?_⟩
+  · have h := constructors_ok_gaussX
+    rw [List.all_eq_true] at h ⊢
+    intro e he
+    have := h e he
+    simp only [Bool.and_eq_true] at this
+    exact this.2
+  · have h := constructors_ok_gaussLog
+    rw [List.all_eq_true] at h ⊢
+    intro e he
+    have := h e he
+    simp only [Bool.and_eq_true] at this
+    exact this.2
+
 /-- the tolerance is `1e-30` everywhere except for the two recorded entries -/
 theorem litTol_default (f : Family) (k1 : Int) (h : ¬ (f = .gaussLog ∧ (k1 = 15 ∨ k1 = 31))) :
     litTol f k1 = 1 / 10 ^ 30 := by
